@@ -239,11 +239,15 @@ Proof.
   - injection Hb as <-. xstep. eexists; split; reflexivity.
 Qed.
 
-Lemma achars_at m : globals_at m -> nth_error m G_achars = Some (achars_block achars).
-Proof. intro Hg. rewrite <- gb_achars_eq. apply Hg. reflexivity. Qed.
+(* all these functions need of the memory: the table is where the program put it (they write nothing, so this is kept) *)
+Definition achars_in (m : mem) : Prop := nth_error m G_achars = Some gb_achars.
+Lemma achars_in_globals m : globals_at m -> achars_in m.
+Proof. intro Hg. apply Hg. reflexivity. Qed.
+Lemma achars_at m : achars_in m -> nth_error m G_achars = Some (achars_block achars).
+Proof. intro Hg. rewrite <- gb_achars_eq. exact Hg. Qed.
 
 (* find_achar(c), for every int c: a pointer to the row of c in achars[], or NULL when no row has c *)
-Theorem tr_find_achar m c d fuel : globals_at m -> int_ok c -> (length achars < fuel)%nat ->
+Theorem tr_find_achar_in m c d fuel : achars_in m -> int_ok c -> (length achars < fuel)%nat ->
   callf cprog fuel (S d) F_find_achar [VInt c] m = Ok (row_ptr (row_index c), m).
 Proof.
   intros Hg Hc Hf. enter F_find_achar cf_find_achar. xstep. eval_len achars.
@@ -257,7 +261,7 @@ Proof.
 Qed.
 
 (* ------------------------------------------------------------------ can_join, uc_cshape *)
-Lemma load_achars m i : globals_at m -> (i < length achars)%nat ->
+Lemma load_achars m i : achars_in m -> (i < length achars)%nat ->
   load m G_achars (5 * Z.of_nat i) = Ok (VInt (a_c (nth i achars arow0))) /\
   load m G_achars (5 * Z.of_nat i + 2) = Ok (VInt (a_i (nth i achars arow0))) /\
   load m G_achars (5 * Z.of_nat i + 3) = Ok (VInt (a_m (nth i achars arow0))) /\
@@ -274,12 +278,12 @@ Qed.
 Ltac fld_off := change (1 * 2) with 2; change (1 * 3) with 3; change (1 * 4) with 4.
 
 (* can_join(c1, c2), for all ints: the model's answer; the memory is not written *)
-Theorem tr_can_join m c1 c2 d fuel : globals_at m -> int_ok c1 -> int_ok c2 -> (length achars < fuel)%nat ->
+Theorem tr_can_join_in m c1 c2 d fuel : achars_in m -> int_ok c1 -> int_ok c2 -> (length achars < fuel)%nat ->
   callf cprog fuel (S (S d)) F_can_join [VInt c1; VInt c2] m = Ok (VInt (b2z (can_join c1 c2)), m).
 Proof.
   intros Hg H1 H2 Hf. enter F_can_join cf_can_join. xstep.
-  rewrite (tr_find_achar m c1 d fuel Hg H1 Hf). xstep.
-  rewrite (tr_find_achar m c2 d fuel Hg H2 Hf). xstep.
+  rewrite (tr_find_achar_in m c1 d fuel Hg H1 Hf). xstep.
+  rewrite (tr_find_achar_in m c2 d fuel Hg H2 Hf). xstep.
   unfold can_join. rewrite <- !row_index_model.
   destruct (row_index c1) as [i1|] eqn:E1; cbn [row_ptr option_map]; xstep; [|reflexivity].
   destruct (row_index c2) as [i2|] eqn:E2; cbn [row_ptr option_map]; xstep; [|reflexivity].
@@ -302,17 +306,17 @@ Proof.
 Qed.
 
 (* uc_cshape(cur, prev, next), for all ints: the model's shaped code point; the memory is not written *)
-Theorem tr_uc_cshape m cur prev next d fuel :
-  globals_at m -> int_ok cur -> int_ok prev -> int_ok next -> (length achars < fuel)%nat ->
+Theorem tr_uc_cshape_in m cur prev next d fuel :
+  achars_in m -> int_ok cur -> int_ok prev -> int_ok next -> (length achars < fuel)%nat ->
   callf cprog fuel (S (S (S d))) F_uc_cshape [VInt cur; VInt prev; VInt next] m
   = Ok (VInt (uc_cshape cur prev next), m).
 Proof.
   intros Hg Hc Hp Hn Hf. enter F_uc_cshape cf_uc_cshape. xstep.
-  rewrite (tr_find_achar m cur (S d) fuel Hg Hc Hf). xstep.
+  rewrite (tr_find_achar_in m cur (S d) fuel Hg Hc Hf). xstep.
   unfold uc_cshape. rewrite <- row_index_model.
   destruct (row_index cur) as [i|] eqn:E; cbn [row_ptr option_map]; xstep; [|reflexivity].
-  rewrite (tr_can_join m prev cur d fuel Hg Hp Hc Hf). xstep.
-  rewrite (tr_can_join m cur next d fuel Hg Hc Hn Hf). xstep.
+  rewrite (tr_can_join_in m prev cur d fuel Hg Hp Hc Hf). xstep.
+  rewrite (tr_can_join_in m cur next d fuel Hg Hc Hn Hf). xstep.
   destruct (row_index_lt _ _ E) as [L _].
   destruct (load_achars m i Hg L) as [LC [LI [LM [LF [OC [_ [OI [OM OF]]]]]]]].
   cbv zeta. unfold nz. fld_off.
@@ -322,6 +326,19 @@ Proof.
       rewrite ?(wrap_I32_fld _ OC), ?(wrap_I32_fld _ OI), ?(wrap_I32_fld _ OM), ?(wrap_I32_fld _ OF)));
     match goal with |- context [negb (?x =? 0)] => destruct (x =? 0) end; xstep; reflexivity.
 Qed.
+
+(* the same for a memory that holds all the program's globals *)
+Theorem tr_find_achar m c d fuel : globals_at m -> int_ok c -> (length achars < fuel)%nat ->
+  callf cprog fuel (S d) F_find_achar [VInt c] m = Ok (row_ptr (row_index c), m).
+Proof. intro Hg. apply tr_find_achar_in, achars_in_globals, Hg. Qed.
+Theorem tr_can_join m c1 c2 d fuel : globals_at m -> int_ok c1 -> int_ok c2 -> (length achars < fuel)%nat ->
+  callf cprog fuel (S (S d)) F_can_join [VInt c1; VInt c2] m = Ok (VInt (b2z (can_join c1 c2)), m).
+Proof. intro Hg. apply tr_can_join_in, achars_in_globals, Hg. Qed.
+Theorem tr_uc_cshape m cur prev next d fuel :
+  globals_at m -> int_ok cur -> int_ok prev -> int_ok next -> (length achars < fuel)%nat ->
+  callf cprog fuel (S (S (S d))) F_uc_cshape [VInt cur; VInt prev; VInt next] m
+  = Ok (VInt (uc_cshape cur prev next), m).
+Proof. intro Hg. apply tr_uc_cshape_in, achars_in_globals, Hg. Qed.
 
 (* ------------------------------------------------------------------ uc_cput *)
 (* CLiteProps.put_cells blk o vs: the cells o .. o + |vs| - 1 of a block replaced by vs, every other cell kept *)
